@@ -1046,7 +1046,6 @@ func (tc *typechecker) binaryOp(expr1 ast.Expression, op ast.OperatorType, expr2
 			ti.Type = t1.Type
 		}
 		t1.setValue(nil)
-		t2.setValue(nil)
 		return ti, nil
 	}
 
